@@ -2068,6 +2068,8 @@ class Exec:
                 raise NotImplementedError('as_slice of a non-slice iterator')
             return R(Slice(it['arr'], it['pos'], it['end']))
         args = [s.as_iter(a) for a in args] if re.search(r' as (Iterator|IntoIterator|DoubleEndedIterator)>::', c) else args
+        if re.search(r' as Iterator>::by_ref$', c):
+            return R(args[0])
         if re.search(r' as Iterator>::rev$', c):
             it = dict(args[0])
             if it.get('kind') not in ('slice', 'rslice'):
